@@ -120,7 +120,7 @@ def c07_exhaustive(tier):
             yield f'P g {gens.hx("pkg:t/" + body + tail)}'
             yield f'P t {gens.hx("pkg:golang/" + body + tail)}'
 PROPS['C07'] = dict(
-    theorems=['C07_generic_purl', 'C07_typed_purl'],
+    theorems=['C07_generic_purl', 'C07_typed_purl', 'C07_no_climb_generic', 'C07_no_climb_typed', 'C07_ns_split_generic', 'C07_ns_split_typed'],
     accepts=lambda c: c[0] in 'PS' and kind_of(c) in 'gst',
     gen=lambda tier, rng: (l for g in (c07_exhaustive(tier), parse_stream(tier, rng, ('g', 't', 's'), {'seg': 4, 'sub': 3, 'path': 3}, {'seg': 5, 'sub': 4, 'path': 4}, (10000, 200000), (2000, 30000))) for l in g),
     compare=impl_accepts(c07_sel),
